@@ -15,6 +15,7 @@ fn xorshift(x: &mut u64) -> u64 {
 
 /// args: <cases> <out> <nthreads> <seed> <shake-level> <repeat>
 pub fn main_threads(dispatch: Dispatch, args: &[String]) {
+    let rendering_before = crate::probe_rendering();
     let cases = Arc::new(read_cases(&args[0]));
     let nthreads: usize = args[2].parse().unwrap();
     let seed: u64 = args[3].parse().unwrap();
@@ -84,6 +85,12 @@ pub fn main_threads(dispatch: Dispatch, args: &[String]) {
     for h in handles {
         let s = h.join().expect("worker thread died");
         f.write_all(s.as_bytes()).unwrap();
+    }
+    let rendering_after = crate::probe_rendering();
+    if rendering_after == rendering_before {
+        writeln!(f, "Y same").unwrap();
+    } else {
+        writeln!(f, "Y differs {} {}", crate::hex(&rendering_before), crate::hex(&rendering_after)).unwrap();
     }
     writeln!(f, "DONE").unwrap();
 }
